@@ -138,14 +138,16 @@ func insideAdd() bool {
 // ---- run-time switchboard shared by the channel ends of one stack
 
 type board struct {
-	rec     recorder
-	mu      sync.RWMutex
-	beh     map[string]string // recording channel name -> behaviour for the current history
-	release chan struct{}     // closed when blocked deliveries may proceed
-	parked  atomic.Int64      // deliveries currently parked in a blocked channel
-	wsFail  atomic.Int64      // websocket publishes answered with an error
-	wsSeq   atomic.Int64
-	wsEvery atomic.Int64 // every n-th publish fails (0: never)
+	rec           recorder
+	mu            sync.RWMutex
+	beh           map[string]string // recording channel name -> behaviour for the current history
+	release       chan struct{}     // closed when blocked deliveries may proceed
+	parked        atomic.Int64      // deliveries currently parked in a blocked channel
+	wsFail        atomic.Int64      // websocket publishes answered with an error
+	wsSeq         atomic.Int64
+	wsEvery       atomic.Int64 // every n-th publish fails (0: never)
+	flaky         atomic.Int64 // calls of the flaky healthy webhook
+	flakyFailures atomic.Int64
 }
 
 func (b *board) behaviour(name string) (string, chan struct{}) {
@@ -347,6 +349,11 @@ func (c *recClient) Call(_ map[string]string, method string, url string, body an
 	c.b.rec.add(delivery{Channel: ch, Payload: marshal(body), Sync: insideAdd(), Extra: method})
 	if ch == chHookFail {
 		return nil, errors.New("verif: injected webhook transport failure")
+	}
+	if ch == chHookOK2 && c.b.flaky.Add(1)%3 == 0 {
+		// a healthy webhook with a hiccup now and then (never twice in a row): it must keep receiving every event
+		c.b.flakyFailures.Add(1)
+		return &http.Response{StatusCode: 500, Status: "500 Internal Server Error", Header: http.Header{}, Body: io.NopCloser(strings.NewReader("hiccup"))}, nil
 	}
 	return &http.Response{StatusCode: 200, Status: "200 OK", Header: http.Header{}, Body: io.NopCloser(strings.NewReader("ok"))}, nil
 }
@@ -575,6 +582,12 @@ func (e *env) startHookServers() {
 			body, _ := io.ReadAll(q.Body)
 			e.b.rec.add(delivery{Channel: ch, Payload: body, Extra: q.Method})
 			switch ch {
+			case chHookOK2:
+				if e.b.flaky.Add(1)%3 == 0 {
+					e.b.flakyFailures.Add(1)
+					http.Error(w, "hiccup", http.StatusInternalServerError)
+					return
+				}
 			case chHookOK3:
 				time.Sleep(300 * time.Microsecond)
 			case chHookFail:
@@ -1031,6 +1044,7 @@ func (e *env) runHistory(caseID string, rng *rand.Rand, hist gen.History, pFail 
 	}
 	r.Count("histories", 1)
 	r.Count("websocket_publish_failures_injected", b.wsFail.Swap(0))
+	r.Count("hiccups_of_a_healthy_webhook", b.flakyFailures.Swap(0))
 	sig, forks, orphans, dups := gen.Signature(rig.Genesis(), hist)
 	nt := len(notStored) > 0 || forks > 0 || orphans > 0 || dups > 0
 	var bs []string
@@ -1092,7 +1106,7 @@ func clip(s string) string {
 }
 
 func body(r *ev.Run) {
-	r.Rule("histories = seeded random histories of the C01 generator (forks, orphans, late parents, duplicates, forbidden hashes, all work classes) with store failures injected at repository.Headers.AddHeaderToDatabase (and UpdateState in every 6th history) with probability {0, 0.05, 0.15} per submission; channel set on the real Notifier = 3 recording channels whose behaviours per history are 3 of {ok, error, slow, blocked until released after ingestion} in random order + real websocket channel over a recording publisher that fails every n-th publish (n in {never,2,3}) + real WebhooksService over the SQL repository with three healthy and an always-failing webhook; a share of the histories runs with the production webhook client (transports/http/client) posting to real HTTP servers, the failing one answering 500 / dropping the connection after reading the request / answering 503 in turn; every 6th fault-free submission is made by two goroutines at once (two peers delivering the same header; the first duplicate look-up waits up to 1.5 ms for the second to arrive). evaluations = histories; distinct = distinct (behaviour assignment, history shape); non-trivial = history with a fork, orphan, duplicate or a non-stored submission.")
+	r.Rule("histories = seeded random histories of the C01 generator (forks, orphans, late parents, duplicates, forbidden hashes, all work classes) with store failures injected at repository.Headers.AddHeaderToDatabase (and UpdateState in every 6th history) with probability {0, 0.05, 0.15} per submission; channel set on the real Notifier = 3 recording channels whose behaviours per history are 3 of {ok, error, slow, blocked until released after ingestion} in random order + real websocket channel over a recording publisher that fails every n-th publish (n in {never,2,3}) + real WebhooksService over the SQL repository with three healthy (one of them answering 500 to every third call, never twice in a row) and an always-failing webhook; a share of the histories runs with the production webhook client (transports/http/client) posting to real HTTP servers, the failing one answering 500 / dropping the connection after reading the request / answering 503 in turn; every 6th fault-free submission is made by two goroutines at once (two peers delivering the same header; the first duplicate look-up waits up to 1.5 ms for the second to arrive). evaluations = histories; distinct = distinct (behaviour assignment, history shape); non-trivial = history with a fork, orphan, duplicate or a non-stored submission.")
 	r.Assume("'stored' = Chains.Add returned without error", "the stored header = its headers row (immutable columns at the end of the history, header_state right after Add returned)",
 		"logical quiescence = goroutine count back at the pre-history baseline plus the deliveries parked in blocked channels (or, if some unrelated long-lived goroutine appeared, every expected delivery recorded and a stable goroutine count)",
 		"the always-failing webhook may be deactivated by the service: only 'at most one call per stored header, none otherwise' is required of it", "SQLite only; built with -race")
@@ -1109,6 +1123,7 @@ func body(r *ev.Run) {
 	r.Require("websocket_publish_failures_injected", 50)
 	r.Require("deliveries_"+chWSClient, 100)
 	r.Require("production_client_histories", 10)
+	r.Require("hiccups_of_a_healthy_webhook", 100)
 	r.Require("webhook_connections_dropped_after_the_request_was_read", 20)
 	mb.ForbiddenHeaders()
 	var e, le *env
